@@ -148,6 +148,16 @@ def cases(tier, rng):
             ok_all = (v == base.tag)
             yield Case(f"!map.read m {hexs(bytes(bb))}", tag="tags",
                        check=(must_err("version tag below MinMapVersion") if v < R.MIN_VERSION else R.shape_check))
+    # coordinated: all three tags carry the same value (a single low tag is refused by the equality test alone)
+    for v in (0, 1, 0x100F, 0x1010, R.M32):
+        m = base.copy(); m.tag = v; bb = m.encode()
+        e, n = R.SavedGame(m).pieces()
+        if v < R.MIN_VERSION:
+            yield Case(f"!map.read m {hexs(bb)}", tag="tags-coordinated", check=must_err("version tag below MinMapVersion (all three tags)"))
+            yield Case(f"!map.read s {e}", tag="tags-coordinated", check=must_err("version tag below MinMapVersion (all three tags)"))
+        else:
+            yield Case(f"!map.read m {hexs(bb)}", tag="tags-coordinated", expect=m.dump(len(bb)))
+            yield Case(f"!map.read s {e}", tag="tags-coordinated", expect=R.SavedGame(m).dump(n))
     mpos = b.index(R.MARKER)
     for k in range(10):
         bb = bytearray(b); bb[mpos + k] ^= 0x20
